@@ -46,14 +46,15 @@ void harness(void)
 void harness(void)
 {
     spif_obj_t a = spif_obj_new(), d;
-    spif_class_t k = (spif_class_t) nondet_ptr();
+    static SPIF_CONST_TYPE(class) vk = { (spif_classname_t) "!vclass!" };
+    spif_class_t k = &vk;
     libast_debug_level = nondet_uint();
     ENS(a != NULL);
     ENS(spif_obj_set_class(a, k) == TRUE && spif_obj_get_class(a) == k);
     d = spif_obj_dup(a);
     ENS(d != NULL && d != a);                       /* distinct object */
     ENS(spif_obj_get_class(d) == k);                /* same class / same observable value */
-    ENS(spif_obj_type(d) == (spif_classname_t) k);  /* type() names the class (a class starts with its name) */
+    ENS(spif_obj_type(d) == k->classname);          /* type() names the class: the class's name string */
     /* independent: deleting either leaves the other valid */
     ENS(spif_obj_del(a) == TRUE);
     ENS(spif_obj_get_class(d) == k);
